@@ -97,26 +97,26 @@ func (s *sched) holdHook(d int) {
 }
 
 type sched struct {
-	tasks  []*taskState
-	cur    int
-	pol    policy
-	rec    Schedule
-	steps  int64
+	tasks    []*taskState
+	cur      int
+	pol      policy
+	rec      Schedule
+	steps    int64
 	maxSteps int64
-	done   chan struct{}
-	active bool
+	done     chan struct{}
+	active   bool
 	// overlap bookkeeping: which tasks are inside Model.Run right now (set by the executor)
 	inRun []int // model index + 1, 0 = not in a Run
 	// probes
-	preemptInsideRun   int64 // preemptions taken while another task was inside a Run of the same model
-	overlaps           int64 // Runs entered while another task was parked inside a Run of the same model
-	switches           int64
-	aborted            bool
-	foreign            bool  // the library starts goroutines of its own: check goroutine identity at yields
-	holds              int64 // Hold(+1) calls seen (lock / once / atomic-function sections entered)
-	sitePairs          map[uint64]struct{}
-	curNodeOp          []string // operator type each task is currently applying ("" = none)
-	overlapOps         map[string]int64
+	preemptInsideRun int64 // preemptions taken while another task was inside a Run of the same model
+	overlaps         int64 // Runs entered while another task was parked inside a Run of the same model
+	switches         int64
+	aborted          bool
+	foreign          bool  // the library starts goroutines of its own: check goroutine identity at yields
+	holds            int64 // Hold(+1) calls seen (lock / once / atomic-function sections entered)
+	sitePairs        map[uint64]struct{}
+	curNodeOp        []string // operator type each task is currently applying ("" = none)
+	overlapOps       map[string]int64
 }
 
 func newSched(n int, pol policy, maxSteps int64) *sched {
@@ -271,7 +271,7 @@ func (p *replayPolicy) onFinish(s *sched, t int) int {
 // serialPolicy: run to completion in a given task order.
 type serialPolicy struct{ order []int }
 
-func (p *serialPolicy) first(n int) int { return p.order[0] }
+func (p *serialPolicy) first(n int) int                                            { return p.order[0] }
 func (p *serialPolicy) atYield(s *sched, t int, k int64, step int64, site int) int { return t }
 func (p *serialPolicy) onFinish(s *sched, t int) int {
 	for _, o := range p.order {
